@@ -3,7 +3,7 @@
    Spec:  coq/Spec/MapStreamSpec.v. *)
 From Coq Require Import ZArith List Lia.
 From EV Require Import Res Arr MapStream MapStreamSpec MapStreamBase MapStreamFixed MapStreamRefuted MapHelpers
-  MapIndexedBase MapIndexedKernel MapIndexedDriver MapIndexedHelper.
+  MapIndexedBase MapIndexedKernel MapIndexedDriver MapIndexedHelper MapStreamOrig.
 Import ListNotations.
 Open Scope Z_scope.
 
@@ -98,6 +98,17 @@ Proof.
   split; reflexivity.
 Qed.
 Print Assumptions stream_equals_helpers.
+
+(* ---- the code as found, in the configuration the repository's tests use: FULL ----------------
+   marker -1 and a column whose fill(0) value is its empty value (numeric, bool): the original
+   driver was already correct for every chunk size — the defect needs a sentinel marker
+   (F-C04a) or a fixed-string column (F-C04c). *)
+Theorem map_stream_correct_minus1 :
+  forall (A:Type) (empty:A) (data:list A) (m:list Z) (cs:Z) (fuel:nat),
+    1 <= cs -> valid_map (len data) (-1) m -> (fuel >= length m + 1)%nat ->
+    ordered_map_valid_stream empty empty fuel Orig data m (-1) cs = Ok (map_spec empty data (-1) m).
+Proof. exact @map_stream_orig_minus1_gen. Qed.
+Print Assumptions map_stream_correct_minus1.
 
 (* ---- the code as found: REFUTED (each witness is replayed on the real code, corpus/C04) ------ *)
 Theorem map_stream_sentinel_refuted :   (* F-C04a *)
